@@ -3,6 +3,7 @@ CrossHair harnesses (h_c14s: symbolic stub species; h_c14: solver-selected real
 reactions and operation sequences) + the network-editing command line."""
 from __future__ import annotations
 
+from ..paths import child_env
 import os
 import subprocess
 import tempfile
@@ -53,7 +54,7 @@ def cli_cases():
 
 def run_cli(chk):
     env = dict(os.environ, TQDM_DISABLE="1", PYTHONHASHSEED="0")
-    env.pop("PYTHONPATH", None)
+    child_env(env)
     for name, args, expected in cli_cases():
         with tempfile.TemporaryDirectory(prefix="naunet-verif-c14-") as tmp:
             r = subprocess.run([proj.PY, "-c", LAUNCH, "new", "p"], capture_output=True, text=True, cwd=tmp, env=env)
